@@ -218,19 +218,61 @@ def build_graph(n, edges, wrapper):
     return classes
 
 
+def c11_all_digraphs(n, loops=True):
+    """Every directed graph on n labelled nodes (self loops included unless loops=False), root 0; cyclic = a cycle is
+    reachable from the root."""
+    pairs = [(a, b) for a in range(n) for b in range(n) if loops or a != b]
+    for mask in range(1 << len(pairs)):
+        edges = [pairs[i] for i in range(len(pairs)) if mask >> i & 1]
+        adj = {}
+        for a, b in edges:
+            adj.setdefault(a, []).append(b)
+        reach, stack = set(), [0]
+        while stack:
+            a = stack.pop()
+            if a not in reach:
+                reach.add(a)
+                stack.extend(adj.get(a, []))
+        # cycle among reachable nodes: DFS colours
+        colour = {}
+
+        def dfs(u):
+            colour[u] = 1
+            for v in adj.get(u, []):
+                if colour.get(v) == 1 or (colour.get(v) is None and dfs(v)):
+                    return True
+            colour[u] = 2
+            return False
+        yield f"all{n}/{mask:x}", (n, edges, [0], dfs(0))
+
+
 def c11_order(run):
     from statham.serializers.orderer import orderer
     from statham.schema.exceptions import SchemaParseError
     wr = c11_wrappers()
-    acc = Acc(run, "C11-order", f"{len(C11_GRAPHS)} dependency graphs (<= 4 classes; chains, diamonds, shared leaves, several roots, self/mutual/longer cycles) x {len(wr)} keyword positions; "
-              "plus repeated calls after re-pointing a dependency")
+    graphs = dict(C11_GRAPHS)
+    exhaustive = ""
+    only_wrappers = {}
+    if run.tier != "quick":
+        # thorough: every digraph on <= 3 classes under every keyword position, every digraph on 4 classes under two positions
+        for n in (1, 2, 3):
+            graphs.update(dict(c11_all_digraphs(n)))
+        g4 = dict(c11_all_digraphs(4, loops=False))
+        graphs.update(g4)
+        only_wrappers = {k: ("property", "items", "anyOf", "class dependencies") for k in g4}
+        exhaustive = ("; exhaustively: all digraphs (self loops included) on <= 3 classes x every position, all 4096 loop-free digraphs on 4 classes x "
+                      "{property, items, anyOf, class dependencies}")
+    acc = Acc(run, "C11-order", f"{len(C11_GRAPHS)} named dependency graphs (<= 4 classes; chains, diamonds, shared leaves, several roots, self/mutual/longer cycles) x {len(wr)} keyword positions"
+              f"{exhaustive}; plus repeated calls after re-pointing a dependency")
     w = quiet()
     try:
-        for gname, (n, edges, roots, cyclic) in C11_GRAPHS.items():
+        for gname, (n, edges, roots, cyclic) in graphs.items():
             for wname, wrapper in wr.items():
+                if gname in only_wrappers and wname not in only_wrappers[gname]:
+                    continue
                 if cyclic is False and not edges and wname != "property":
                     continue
-                if wname.startswith("class ") and len([e for e in edges if e[0] == 0]) > 1 and wname in ("class additionalProperties", "class propertyNames"):
+                if wname.startswith("class ") and max([len([e for e in edges if e[0] == a]) for a in range(n)] or [0]) > 1 and wname in ("class additionalProperties", "class propertyNames"):
                     continue   # a single-valued class keyword cannot hold two dependencies
                 key = f"{gname}/{wname}"
                 try:
@@ -609,7 +651,7 @@ def c18_repr(run):
     acc = Acc(run, "C18-repr", "element pool (levels 0-1 + literal variants), fresh and after validating values; properties stand-alone (unbound) and through their element; eval(repr(x)) == x")
     w = quiet()
     try:
-        makers = [mk for mk in gen.elements(1)] + [mk for mk in c17_variants()[len(gen.elements(1)):] if True]
+        makers = [mk for mk in gen.elements(1 if run.tier == "quick" else 3)] + [mk for mk in c17_variants()[len(gen.elements(1)):] if True]
         for mk in makers:
             try:
                 e = mk()
@@ -629,7 +671,15 @@ def c18_repr(run):
                 acc.case(key)
                 try:
                     r = repr(e)
-                    back = eval(r, dict(ns))
+                    scope = dict(ns)
+                    # a model class is written by its name: the classes the element refers to are in scope, as they are in
+                    # a generated module
+                    from statham.serializers.orderer import get_children
+                    from statham.schema.elements.meta import ObjectMeta
+                    for ch in get_children(e):
+                        if isinstance(ch, ObjectMeta):
+                            scope[ch.__name__] = ch
+                    back = eval(r, scope)
                 except Exception as ex:
                     acc.fail(key, f"repr does not evaluate: {type(ex).__name__}: {ex}")
                     continue
@@ -1081,7 +1131,7 @@ def c03_json(run):
                 acc.fail(f"{key} <- {jkey(v)}", f"element {'accepts' if k1 == 'ok' else 'rejects'} but its serialisation {jkey(doc)[:200]} says {'valid' if want else 'invalid'}",
                          extra={"tags": c03_tags(e)})
     try:
-        for i, mk, e in element_cases(2):
+        for i, mk, e in element_cases(2 if run.tier == "quick" else 3):
             check(edesc(e), [e], {})
         # extra shapes
         for label, mk in c03_extra().items():
